@@ -767,7 +767,9 @@ def det(m):
     :SymPy: supported
     """
     if m.dtype.kind == 'O':
-        return Matrix(m).det()
+        # division-free (Berkowitz): elimination methods divide by pivots, which gives nan or garbage when
+        # floating point entries are mixed with symbols
+        return Matrix(m).det(method='berkowitz')
     else:
         return np.linalg.det(m)
 
